@@ -34,7 +34,7 @@ ASSUMPTIONS = ["virtual clock; verdict on virtual instants (+-1 us)",
 REQUIRED_OBS = ["heartbeats_compared", "timeout_resets_predicted_and_seen",
                 "never_answered_from_start", "all_answered_no_reset", "custom_configs",
                 "reset_after_previous_reset", "after_init_shutdown_cycle",
-                "ticks_while_link_down", "heartbeats_after_a_skipped_tick",
+                "ticks_while_link_down", "heartbeats_after_a_skipped_tick", "chatter_frames",
                 "tick_with_full_queue"]
 BUDGET = {"quick": 100, "thorough": 1500}
 
@@ -130,11 +130,15 @@ def cases(tier, seed):
     for i in range(n):
         yield {"gen": rnd.choice((4, 5)), "mode": "api",
                "pattern": [rnd.choice(delays) for _ in range(N)],
-               "cycle": i % 3 == 0, "vary_version": i % 2 == 0}
+               "cycle": i % 3 == 0, "vary_version": i % 2 == 0, "chatter": i % 4 == 1}
     for gen in (4, 5):
         for pat in ([None] * N, [0.0] * N, [45.0, None, 0.0] * 4):
             yield {"gen": gen, "mode": "api", "pattern": pat, "cycle": True,
                    "vary_version": True}
+            # the console keeps sending other frames (status, error text, names, unknown
+            # extended ids) while it does not answer heartbeats: only a console-version
+            # response counts
+            yield {"gen": gen, "mode": "api", "pattern": pat, "chatter": True}
     # link outages that have nothing to do with the heartbeat (peer closes, the reconnect
     # takes `dur`), placed around heartbeat ticks; optionally 10 commands are queued while down
     shapes = [("tick_in_short_outage", -0.37, 1.0, 0), ("tick_in_long_outage", -0.37, 5.0, 0),
@@ -304,6 +308,24 @@ def run_api(case):
         out["ok"] = ok
         out["T0"] = loop.time()
         out["m0"] = log.mark()
+        chat = None
+        if case.get("chatter"):
+            async def chatter():
+                con = w.console
+                k = 0
+                while True:
+                    await asyncio.sleep(47.3)
+                    c = net.current()
+                    if c is None:
+                        continue
+                    k += 1
+                    raw = [con.frame_ac_status, con.frame_zone_status,
+                           lambda: con.frame_error(0), con.frame_names,
+                           lambda: con.f_ext(0xFF77, b"\x01\x02"), con.frame_timer_status,
+                           con.frame_unknown][k % 7]()
+                    con.send(c, raw)
+                    obs["chatter_frames"] = obs.get("chatter_frames", 0) + 1
+            chat = loop.create_task(chatter())
         drv = None
         if case.get("outages"):
             table = AW.commands(gen)
@@ -317,6 +339,8 @@ def run_api(case):
         out["m1"] = log.mark()
         if drv is not None:
             await drv
+        if chat is not None:
+            chat.cancel()
         await w.at.shutdown()
 
     _, log, st = H.run(main)
